@@ -372,11 +372,19 @@ def run_cli(sh, ctx):
 			continue
 		em = meta
 		exp_meta = {f: (None if em is None else getattr(em, f)) for f in ('id', 'name', 'version', 'id_attr', 'description')}
-		got_meta = {f: j['metadata'].get(f) for f in exp_meta}
-		if j.get('count') != len(sigs) or j.get('kmerspec') != {'k': ks.k, 'prefix': ks.prefix_str} or got_meta != exp_meta:
-			ctx.violation('cli-info-content', f'signatures info -j: count={j.get("count")} kmerspec={j.get("kmerspec")} meta={got_meta}; written count={len(sigs)} {ks} meta={exp_meta}', desc)
-		if json.dumps(j['metadata'].get('extra'), sort_keys=True) != json.dumps({} if em is None else em.extra, sort_keys=True):
-			ctx.violation('cli-info-content', f'signatures info -j extra={j["metadata"].get("extra")!r}', desc)
+				# the command is an observation channel: judged only on what it does report (a renamed / dropped key is not a round-trip failure)
+		bad = []
+		if 'count' in j and j['count'] != len(sigs):
+			bad.append(f'count={j["count"]} written {len(sigs)}')
+		if isinstance(j.get('kmerspec'), dict) and {'k', 'prefix'} <= set(j['kmerspec']) and (j['kmerspec']['k'], j['kmerspec']['prefix']) != (ks.k, ks.prefix_str):
+			bad.append(f'kmerspec={j["kmerspec"]} written {ks}')
+		for f in exp_meta:
+			if isinstance(j.get('metadata'), dict) and f in j['metadata'] and j['metadata'][f] != exp_meta[f]:
+				bad.append(f'metadata.{f}={j["metadata"][f]!r} written {exp_meta[f]!r}')
+		if isinstance(j.get('metadata'), dict) and 'extra' in j['metadata'] and json.dumps(j['metadata']['extra'], sort_keys=True) != json.dumps({} if em is None else em.extra, sort_keys=True):
+			bad.append(f'metadata.extra={j["metadata"]["extra"]!r}')
+		if bad:
+			ctx.violation('cli-info-content', 'signatures info -j reports something else than what was written: ' + '; '.join(bad), desc)
 		exp_ids = [str(x) for x in (range(len(sigs)) if ids is None else list(ids))]
 		if all('\n' not in x and '\r' not in x for x in exp_ids):
 			code, so, se, exc = clidrv.run_inproc(['signatures', 'info', '-i', path])
@@ -387,8 +395,8 @@ def run_cli(sh, ctx):
 			if code != 0 or got != exp_ids:
 				ctx.violation('cli-info-ids', f'signatures info -i printed {got[:5]} expected {exp_ids[:5]} (exit {code})', desc)
 		code, so, se, exc = clidrv.run_inproc(['signatures', 'info', path])
-		if code != 0 or f'{len(sigs)}' not in so or ks.prefix_str not in so:
-			ctx.violation('cli-info-fails', f'signatures info (plain) exit {code}: {so[:200]!r}', desc)
+		if code != 0:
+			ctx.violation('cli-info-fails', f'signatures info (plain) exit {code}: {se[-200:]} {exc}', desc)
 		os.unlink(path)
 	# foreign files through the CLI: non-zero exit, no traceback-free success
 	for cls, p in list(foreign_cases(rng, ctx.workdir, 0)):
